@@ -39,6 +39,13 @@ def norm2 (ref q : List Nat) : List Nat :=
 def normalised (ref q : List Nat) : List (Nat × Nat) :=
   List.zipWith (fun c n => (2 * c, n)) (corrValid ref q) (norm2 ref q)
 
+/-- `CorrelationResult.createPeaks` (optical_map.py:141-155) on (bin, height) pairs: when there are
+    more peaks than `peaksCount` only the `peaksCount` highest are kept (numpy's `argpartition`
+    leaves their order unspecified, so the result is meant as a set); bins become base pairs -/
+def createPeaks (count : Int) (res start : Int) (peaks : List (Int × Int)) : List (Int × Int) :=
+  let kept := if count < peaks.length then selectPeaks count.toNat (fun (p : Int × Int) => p.2) peaks else peaks
+  kept.map fun p => (toBp p.1 res start, p.2)
+
 /-- position reported for a primary peak at bin `k` (resolution `res`, correlation start 0) and
     for a secondary peak at bin `k` of the refinement window starting at `peak - margin`
     (optical_map.py:141-155, 197-217) -/
